@@ -1149,6 +1149,7 @@ func lemmaUpdateThenNew(s *bufferSlice) {
 //@   at call? (*Session).writeEventData#0 ghost handed := handed + 1
 //@   at call? chansend#0 ghost handed := handed + 1
 //@   exit[C05] (won ==> handed == 1) && (!won ==> handed == 0)
+//@   ensures  result == nil
 //@   modifies heap
 
 //@ func (*Session).writeEventData
